@@ -29,16 +29,23 @@ BUDGET_S = {"quick": 150.0, "thorough": 2400.0}
 
 
 def _variants(tier):
-    return [[d, k, p] for d in (2, 3) for k in ("cosine", "peskin") for p in ("float32", "float64")]
+    base = [[d, k, p, "palette"] for d in (2, 3) for k in ("cosine", "peskin") for p in ("float32", "float64")]
+    return base + [[d, k, "float64", "large"] for d in (2, 3) for k in ("cosine", "peskin")]
 
 
 def _strategy(tier, var):
-    dim, kt, dtype = var
+    dim, kt, dtype, nmode = var
 
     @st.composite
     def case(draw):
-        n = draw(st.sampled_from(ibm.N_PALETTE[dim]))
+        n = draw(st.sampled_from(ibm.N_PALETTE[dim])) if nmode == "palette" else ibm.N_LARGE
         hi = (40 if dim == 2 else 14) if tier == "quick" else (64 if dim == 2 else 20)
+        if nmode == "large":
+            return {"dim": dim, "kernel": kt, "dtype": dtype, "dx": ibm.DX_PALETTE[0], "n": n,
+                    "shape": draw(gen.grid_shape(dim, 8, hi)), "marker_key": draw(gen.block_keys),
+                    "markers": draw(ibm.marker_spec(dim, 6)),
+                    "affine": draw(st.lists(gen.floats(-4.0, 4.0, 32), min_size=4, max_size=4)),
+                    "const": draw(gen.floats(-100.0, 100.0, 32)), "probe": draw(st.integers(0, 639))}
         return {"dim": dim, "kernel": kt, "dtype": dtype, "dx": draw(st.sampled_from(ibm.DX_PALETTE)), "n": n,
                 "shape": draw(gen.grid_shape(dim, 6, hi)), "markers": draw(ibm.marker_spec(dim, n)),
                 "affine": draw(st.lists(gen.floats(-4.0, 4.0, 32), min_size=4, max_size=4)),
@@ -70,7 +77,7 @@ def _body(case, ctx):
     with ctx.repo_call("constructing the grid communicator"):
         com, dxr, shift = ibm.communicator(dim, case["dx"], n, real_t, 1, kt)
     dx = float(dxr)
-    pos, labels = ibm.build_markers(case["markers"], shape, dx)
+    pos, labels = ibm.build_markers_any(case, shape, dx)
     with ctx.repo_call("support + weights kernels"):
         nearest, support, w = ibm.compute_weights(com, pos, dim, n, real_t)
     W = w.astype(np.float64)
@@ -163,7 +170,7 @@ def _body(case, ctx):
                 dropped += 1
     special = {lab for lab in labels if lab not in ("uniform",)}
     ctx.note(nontrivial=bool(special - {"same_cell", "duplicate"}),
-             labels=[f"{dim}d_{kt}_{case['dtype']}"] + sorted(special) + (["floor_index_shifted"] if dropped else []))
+             labels=[f"{dim}d_{kt}_{case['dtype']}", f"markers_{n}"] + sorted(special) + (["floor_index_shifted"] if dropped else []))
 
 
 PARTS = [
